@@ -1,5 +1,6 @@
 import ZenonVerif.Model.Num
 import ZenonVerif.Gen.Consensus
+import ZenonVerif.Gen.Consts
 /-
 L6 — consensus: election algorithm, ticker, schedule, proof momentum, momentum verifier.
 Stands for common/ticker.go, consensus/{election_algorithm,election,consensus,context}.go,
@@ -230,5 +231,209 @@ def getMomentumProducer (c : Ctx) (elected : Nat → Option (List Bytes)) (t : I
           match (generateProducers c tick addrs).find? (fun p => p.startTime == t) with   -- plan.StartTime == timestamp
           | some p => .ok p.producer
           | none => .error .noSlotStartsHere
+
+/-! ## Momentum verifier (verifier/momentum.go, vm/supervisor.go ApplyMomentum)
+The ORDER of the checks is not written here: it is read from the generated lists `Gen.MV_raw_all` and
+`Gen.MV_tx_all` (extracted from the AST of `rawMomentumVerifier.all` / `momentumTransactionVerifier.all`), so a
+check removed from the Go code disappears from the model and `momentum_verify_sound` stops being provable. -/
+
+/-- verdicts; the `Err…` names are the identifiers of verifier/errors.go -/
+inductive Reason where
+  | ErrMNotGenesis | ErrMPrevHashMissing | ErrMPreviousMissing
+  | ErrABChainIdentifierMissing | ErrABChainIdentifierMismatch
+  | ErrMVersionMissing | ErrMVersionInvalid
+  | ErrMTimestampMissing | ErrMTimestampInTheFuture | ErrMTimestampNotIncreasing
+  | ErrMDataMustBeZero | ErrMContentTooBig
+  | contentSizeMismatch     -- "momentum content size is different than the size of the prefetched account-blocks"
+  | contentHeaderMissing    -- header without prefetched block: `isBatched(nil)` dereferences nil (recovered: ErrVmRunPanic)
+  | contentGap              -- "gap in previous"
+  | vmFailed                -- momentumVM.applyMomentum / context.Changes returned an error
+  | ErrMChangesHashInvalid | ErrMHashInvalid
+  | ErrMSignatureMissing | ErrMPublicKeyMissing | sigInternal | ErrMSignatureInvalid
+  | producerInternal (e : ProducerErr) | ErrMProducerInvalid
+  | unknownCheck (name : String)
+deriving DecidableEq, Repr
+
+/-- `types.AccountHeader` (an entry of `Momentum.Content`) -/
+structure Header where
+  address : Bytes
+  hash : Bytes
+  height : Nat
+deriving DecidableEq, Repr
+
+/-- the fields of a prefetched `nom.AccountBlock` that `content()` reads -/
+structure PBlock where
+  address : Bytes
+  hash : Bytes
+  height : Nat
+  prevHash : Bytes
+  batched : Bool      -- `isBatched`: a send block of an embedded contract
+deriving DecidableEq, Repr
+
+/-- `nom.Momentum` as far as the verifier reads it -/
+structure Momentum where
+  version : Nat
+  chainId : Nat
+  height : Nat
+  tsUnix : Nat          -- TimestampUnix (hashed)
+  tsCache : Int         -- *Timestamp, ns (cache filled by EnsureCache from TimestampUnix; not hashed)
+  hash : Bytes
+  prevHash : Bytes
+  changesHash : Bytes
+  dataLen : Nat
+  content : List Header
+  pubKeyLen : Nat
+  sigLen : Nat
+deriving Repr
+
+/-- values computed on the candidate by code that is not modelled (crypto, the momentum VM) -/
+structure Oracle where
+  computedHash : Bytes   -- momentum.ComputeHash()
+  vmOk : Bool            -- applyMomentum and context.Changes() succeed
+  patchHash : Bytes      -- db.PatchHash(changes)
+  sigErr : Bool          -- wallet.VerifySignature returned an error (malformed key)
+  sigOk : Bool           -- ed25519 verdict for (PublicKey, Hash, Signature)
+  producer : Bytes       -- types.PubKeyToAddress(PublicKey)
+deriving Repr
+
+/-- `chain.GetMomentumStore(identifier)`: the ledger as of one momentum -/
+structure StoreView where
+  chainId : Nat
+  fHash : Bytes          -- GetFrontierMomentum(): hash, height, TimestampUnix
+  fHeight : Nat
+  fTs : Nat
+  accFrontier : Bytes → Option (Bytes × Nat)   -- GetFrontierAccountBlock(address).Identifier()
+
+structure VState where
+  storeAt : Bytes → Nat → Option StoreView          -- by (hash, height)
+  expected : Int → Except ProducerErr Bytes         -- consensus.GetMomentumProducer(timestamp)
+
+def isZeroHash (h : Bytes) : Bool := h.all (· == 0)
+
+/-- `Momentum.Previous().Height`: `m.Height - 1` in uint64 -/
+def prevHeight (m : Momentum) : Nat := (m.height + two64 - 1) % two64
+
+/-- `momentumVerifier.getContext` -/
+def getContext (s : VState) (m : Momentum) : Except Reason StoreView :=
+  if m.height = 1 then .error .ErrMNotGenesis
+  else if isZeroHash m.prevHash then .error .ErrMPrevHashMissing
+  else match s.storeAt m.prevHash (prevHeight m) with
+    | none => .error .ErrMPreviousMissing
+    | some v => .ok v
+
+def chkChainIdentifier (v : StoreView) (m : Momentum) : Except Reason Unit :=
+  if m.chainId = 0 then .error .ErrABChainIdentifierMissing
+  else if m.chainId ≠ v.chainId then .error .ErrABChainIdentifierMismatch
+  else .ok ()
+
+def chkVersion (m : Momentum) : Except Reason Unit :=
+  if m.version = 0 then .error .ErrMVersionMissing
+  else if m.version ≠ 1 then .error .ErrMVersionInvalid
+  else .ok ()
+
+/-- `rawMomentumVerifier.timestamp`; `now` = time.Now() in ns -/
+def chkTimestamp (v : StoreView) (now : Int) (m : Momentum) : Except Reason Unit :=
+  if m.tsCache / nsPerSec = 0 then .error .ErrMTimestampMissing                         -- Timestamp.Unix() == 0
+  else if m.tsCache > now + nsPerSec * Gen.MomentumFutureSeconds then .error .ErrMTimestampInTheFuture
+  else if v.fTs ≥ m.tsUnix then .error .ErrMTimestampNotIncreasing
+  else .ok ()
+
+def chkPrevious (v : StoreView) (m : Momentum) : Except Reason Unit :=
+  if m.height = 1 then .error .ErrMNotGenesis
+  else if isZeroHash m.prevHash then .error .ErrMPrevHashMissing
+  else if m.prevHash ≠ v.fHash ∨ prevHeight m ≠ v.fHeight then .error .ErrMPreviousMissing
+  else .ok ()
+
+def chkData (m : Momentum) : Except Reason Unit :=
+  if m.dataLen ≠ 0 then .error .ErrMDataMustBeZero else .ok ()
+
+/-- `blocksLookup[id]`: the map is filled in order, later entries overwrite earlier ones -/
+def lookupBlock (blocks : List PBlock) (hash : Bytes) (height : Nat) : Option PBlock :=
+  blocks.reverse.find? (fun b => b.hash == hash && b.height == height)
+
+/-- `len(blocksLookup)`: number of distinct identifiers -/
+def distinctIds (blocks : List PBlock) : Nat := ((blocks.map fun b => (b.hash, b.height)).eraseDups).length
+
+/-- `previous` of the loop of `content()`: the head recorded for the address, else the account frontier of the
+    store, else `types.ZeroHashHeight` -/
+def prevOf (v : StoreView) (heads : List (Bytes × Bytes × Nat)) (address : Bytes) : Bytes × Nat :=
+  match heads.find? (fun e => e.1 == address) with
+  | some e => e.2
+  | none => match v.accFrontier address with
+    | none => (List.replicate 32 0, 0)
+    | some id => id
+
+/-- the loop of `content()`; `heads` = association list address ↦ identifier -/
+def contentLoop (v : StoreView) (blocks : List PBlock) : List (Bytes × Bytes × Nat) → List Header → Except Reason Unit
+  | _, [] => .ok ()
+  | heads, h :: rest =>
+    match lookupBlock blocks h.hash h.height with
+    | none => .error .contentHeaderMissing
+    | some b =>
+      if b.batched then contentLoop v blocks heads rest
+      else if b.prevHash ≠ (prevOf v heads h.address).1 ∨ (b.height + two64 - 1) % two64 ≠ (prevOf v heads h.address).2
+        then .error .contentGap
+      else contentLoop v blocks ((h.address, b.hash, b.height) :: heads) rest
+
+def chkContent (v : StoreView) (m : Momentum) (blocks : List PBlock) : Except Reason Unit :=
+  if m.content.length > Gen.MaxAccountBlocksInMomentum then .error .ErrMContentTooBig
+  else if distinctIds blocks ≠ m.content.length then .error .contentSizeMismatch
+  else contentLoop v blocks [] m.content
+
+/-- the checks of `rawMomentumVerifier` by method name -/
+def rawCheck (v : StoreView) (now : Int) (m : Momentum) (blocks : List PBlock) : String → Except Reason Unit
+  | "chainIdentifier" => chkChainIdentifier v m
+  | "version" => chkVersion m
+  | "timestamp" => chkTimestamp v now m
+  | "previous" => chkPrevious v m
+  | "data" => chkData m
+  | "content" => chkContent v m blocks
+  | n => .error (.unknownCheck n)
+
+def chkChangesHash (m : Momentum) (o : Oracle) : Except Reason Unit :=
+  if o.patchHash ≠ m.changesHash then .error .ErrMChangesHashInvalid else .ok ()
+
+def chkHash (m : Momentum) (o : Oracle) : Except Reason Unit :=
+  if o.computedHash ≠ m.hash then .error .ErrMHashInvalid else .ok ()
+
+def chkSignature (m : Momentum) (o : Oracle) : Except Reason Unit :=
+  if m.sigLen = 0 then .error .ErrMSignatureMissing
+  else if m.pubKeyLen = 0 then .error .ErrMPublicKeyMissing
+  else if o.sigErr then .error .sigInternal
+  else if !o.sigOk then .error .ErrMSignatureInvalid
+  else .ok ()
+
+/-- `momentumTransactionVerifier.producer` with `consensus.VerifyMomentumProducer` -/
+def chkProducer (s : VState) (m : Momentum) (o : Oracle) : Except Reason Unit :=
+  match s.expected m.tsCache with
+  | .error e => .error (.producerInternal e)
+  | .ok exp => if o.producer = exp then .ok () else .error .ErrMProducerInvalid
+
+/-- the checks of `momentumTransactionVerifier` by method name -/
+def txCheck (s : VState) (m : Momentum) (o : Oracle) : String → Except Reason Unit
+  | "changesHash" => chkChangesHash m o
+  | "hash" => chkHash m o
+  | "signature" => chkSignature m o
+  | "producer" => chkProducer s m o
+  | n => .error (.unknownCheck n)
+
+/-- `if err := check(); err != nil { return err }` for each check in order -/
+def runAll (f : String → Except Reason Unit) : List String → Except Reason Unit
+  | [] => .ok ()
+  | n :: ns => match f n with
+    | .ok () => runAll f ns
+    | .error e => .error e
+
+/-- `Supervisor.ApplyMomentum`: verifier.Momentum (getContext, raw checks), momentum VM, packMomentum →
+    verifier.MomentumTransaction (changes hash, hash, signature, producer) -/
+def verifyMomentum (s : VState) (now : Int) (m : Momentum) (blocks : List PBlock) (o : Oracle) : Except Reason Unit :=
+  match getContext s m with
+  | .error e => .error e
+  | .ok v =>
+    match runAll (rawCheck v now m blocks) Gen.MV_raw_all with
+    | .error e => .error e
+    | .ok () =>
+      if !o.vmOk then .error .vmFailed
+      else runAll (txCheck s m o) Gen.MV_tx_all
 
 end ZV.Consensus
